@@ -1,0 +1,18 @@
+//go:build verif
+
+package parser
+
+// Read-only accessors for unexported token state, used by the external
+// verification harness to compare complete tokens. Compiled only with -tags verif.
+
+// VerifHashIsIdentifier reports the "id" type flag of a hash token.
+func VerifHashIsIdentifier(t Hash) bool { return t.isIdentifier() }
+
+// VerifStringHasError reports whether a string token was closed by EOF.
+func VerifStringHasError(t String) bool { return t.isError() }
+
+// VerifURLHasError reports whether an url token was closed by EOF.
+func VerifURLHasError(t URL) bool { return t.flag&isErrorInURL != 0 }
+
+// VerifParseErrorKind returns the internal kind of a parse error token.
+func VerifParseErrorKind(t ParseError) byte { return t.kind }
